@@ -52,3 +52,36 @@ func HarnessP256Data(p0, p1 int) {
 	vassert(ok, "Data: returns the bytes at the fixed offsets of the left-padded coordinate")
 	vassert(P.EmbedLen() == 30, "EmbedLen is 30")
 }
+
+// C03 — P-256 MarshalBinary: 0x04 || x || y with both coordinates left-padded to 32 bytes whatever their number of
+// leading zero bytes; decoding the result (membership = stub answering true) gives the coordinates back.
+// p0, p1: byte lengths of x and y (0..32)
+func HarnessP256Marshal(p0, p1 int) {
+	prime, _ := new(big.Int).SetString("115792089210356248762697446949407573530086143415290314195533631308867097853951", 10)
+	params := &elliptic.CurveParams{P: prime, BitSize: 256, Name: "P-256"}
+	c := &curve{Curve: &c17Curve{params}, p: params}
+	var fx, fy [32]byte
+	for i := 32 - p0; i < 32; i++ {
+		if i == 32-p0 {
+			fx[i] = nondetU8Range(1, 255)
+		} else {
+			fx[i] = nondetU8()
+		}
+	}
+	for i := 32 - p1; i < 32; i++ {
+		if i == 32-p1 {
+			fy[i] = nondetU8Range(1, 255)
+		} else {
+			fy[i] = nondetU8()
+		}
+	}
+	P := &curvePoint{x: new(big.Int).SetBytes(fx[32-p0:]), y: new(big.Int).SetBytes(fy[32-p1:]), c: c}
+	enc, err := P.MarshalBinary()
+	vreach("returned")
+	vassert(err == nil && len(enc) == 65 && P.MarshalSize() == 65, "P-256 MarshalBinary: exactly MarshalSize = 65 bytes")
+	ok := len(enc) == 65 && enc[0] == 4
+	for i := 0; ok && i < 32; i++ {
+		ok = ok && enc[1+i] == fx[i] && enc[33+i] == fy[i]
+	}
+	vassert(ok, "P-256 MarshalBinary: 0x04, then x and y left-padded to 32 bytes each")
+}
